@@ -38,7 +38,7 @@ def parse_cases(tier, blocks_per_dialect=True, fixtures=True, jinja=False):
         ml = 30 if tier == "quick" else 44
         ts = [t for t in corpus.t_seqs(1, 2, corpus.T_LITS, max_len=ml) if corpus.has_markup(t)]
         # + tokens spanning 2-3 template slices / templated whitespace (no separating spaces)
-        ts = sorted(set(ts) | set(corpus.span_templates(3)), key=lambda s: (len(s), s))
+        ts = sorted(set(ts) | set(corpus.span_templates(3)) | set(corpus.loop_templates()), key=lambda s: (len(s), s))
         for i in range(0, len(ts), 16):
             out.append({"k": "jinja", "ts": ts[i : i + 16]})
     return out
